@@ -256,6 +256,15 @@ def run_path(con: Contract, case, prefix, worklist, report: FunctionReport, plan
         report.assumptions |= ctx.assumptions_used
         report.dropped |= ctx.dropped
         for name, verdict, info in ctx.obligations:
+            if verdict == "refuted" and info.get("aux_reads") and not name.endswith("::__canary__"):
+                # the path read an attribute the class keeps but the contract's state does not declare, of a kind
+                # for which nothing bounds its value: the counter-model may sit in an unreachable state -> undecided,
+                # never a violation
+                report.record(name, "undecided", info)
+                report.assumptions.add(
+                    f"aux:counter-model of {name.split('::')[-1]} on a path that read undeclared attribute(s) "
+                    f"{info['aux_reads']} (no invariant known for them): undecided, not a violation")
+                continue
             report.record(name, verdict, info)
             if verdict == "refuted" and not name.endswith("::__canary__"):
                 m = info.get("model")
@@ -381,8 +390,13 @@ def check_exit(I, con, bindings, old_view, result, raised, exit_kind, self_obj, 
             # a coroutine is suspended at its awaits: the interference frame of the class is implicit
             allowed |= set(con.self_spec.interference if con.self_spec.interference is not None else con.self_spec.fields)
         oldf = old_view.get(self_obj.oid, {})
+        declared = getattr(con.self_spec, "fields", None)
         for fld in sorted(set(oldf) | set(self_obj.fields)):
             if fld in allowed:
+                continue
+            if declared is not None and fld not in declared:
+                # an attribute the class keeps beside the state the contract declares (ClassSpec.aux_fields): not part
+                # of the abstraction the frame is about; reads of it are symbolic, writes to it concern nobody's clause
                 continue
             if fld + ".*" in allowed:
                 # contents may change, the binding may not
